@@ -547,6 +547,9 @@ func (s *TxStore) ExistsUtxo(tx mwdb.ReadTransaction, out *wire.OutPoint) (flags
 	if err != nil {
 		return nil, err
 	}
+	// the pending-input bucket is keyed by the 36-byte outpoint, not by the
+	// wallet-prefixed unspent key
+	uspKey = canonicalOutPoint(&out.Hash, out.Index)
 	if credKey != nil {
 		credValue, err := existsRawCredit(nsCredits, credKey)
 		if err != nil {
